@@ -173,20 +173,35 @@ def rule_add(ck):
     m, i, l = mstores[0], istores[0], lstores[0]
     ok = canon(fl.expand(l.stmt.value, l)) == f"np.append(self.magnitudes, {lim})"
     ck.require(ok, "C12.R2", f, l.stmt, ok="limit appended at the end", bad="the new limit must be appended to magnitudes (np.append(self.magnitudes, limit))", sink="add:limit")
-    mv = m.stmt.value
+    def deref(e, node):
+        """a local temporary with one reaching definition stands for the expression it was assigned (one step at a time, so the
+        frame variable the index is taken from keeps its name)"""
+        seen = 0
+        while isinstance(e, ast.Name) and seen < 4:
+            ds = fl.defs_at(node, e.id)
+            if len(ds) != 1:
+                break
+            d = next(iter(ds))
+            how = fl.def_how(d, e.id)
+            if how[0] != "assign" or how[1] is None:
+                break
+            e, node, seen = how[1], d, seen + 1
+        return e, node
+    mv, mnode = deref(m.stmt.value, m)
     frame_expr = None
     good = False
     if isinstance(mv, ast.Call) and call_name(mv) in ("to_numpy",) or isinstance(mv, ast.Attribute) and mv.attr == "values":
         inner = mv.func.value if isinstance(mv, ast.Call) else mv.value
+        inner, mnode = deref(inner, mnode)
         if isinstance(inner, ast.Call) and call_name(inner) == "reindex":
             cols = next((k.value for k in inner.keywords if k.arg == "columns"), None)
-            if cols is not None and canon(fl.expand(cols, m)) in ("self.station_ids", "list(self._EVSEs.keys())"):
+            if cols is not None and canon(fl.expand(cols, mnode)) in ("self.station_ids", "list(self._EVSEs.keys())"):
                 good = True
                 frame_expr = inner.func.value
     ck.require(good, "C12.R2", f, mv, ok="matrix = frame.reindex(columns=self.station_ids): columns aligned by station name in network order",
                bad=f"the stored matrix `{src(mv, 70)}` is not the frame re-indexed on columns=self.station_ids: coefficients are placed by position "
                    f"of appearance, not under their station", sink="add:reindex")
-    iv = i.stmt.value
+    iv, _ = deref(i.stmt.value, i)
     ok = frame_expr is not None and isinstance(iv, ast.Call) and call_name(iv) == "list" and iv.args and isinstance(iv.args[0], ast.Attribute) \
         and iv.args[0].attr == "index" and canon(iv.args[0].value) == canon(frame_expr)
     ck.require(ok, "C12.R2", f, iv, ok="names = the same frame's index (row order of the matrix)", bad="constraint_index is not list(<the stored frame>.index)",
@@ -311,7 +326,7 @@ def rule_register(ck):
             ok2 = canon(n.stmt.value) == f"np.append(self._phase_angles, {f.params[3]})"
             ck.require(ok2, "C12.R4", f, n.stmt, ok="angle appended (registration order)", bad="the phase angle is not appended at the end", sink="register:angle")
         if p == "self._EVSEs" and k == "subassign":
-            ok2 = canon(t.slice) == f"{f.params[1]}.station_id" and canon(n.stmt.value) == f.params[1]
+            ok2 = canon(fl.expand(t.slice, n)) == f"{f.params[1]}.station_id" and canon(fl.expand(n.stmt.value, n)) == f.params[1]
             ck.require(ok2, "C12.R4", f, n.stmt, ok="EVSE stored under its own station id", bad="the EVSE is not stored under evse.station_id", sink="register:evse")
 
 
@@ -367,6 +382,18 @@ def rule_algebra(ck):
         raise AnalysisError("Current.__init__: the Series is constructed through *args / **kwargs computed elsewhere (construction idiom not recognised)")
     ones = [c for n, c in calls_in(il, "__init__") if c.args and isinstance(c.args[0], ast.DictComp)]
     ok = any(isinstance(c.args[0].value, ast.Constant) and c.args[0].value.value == 1 for c in ones)
+    if not ok:
+        # dict.fromkeys(ids, 1), possibly through a temporary
+        for n_, c in calls_in(il, "__init__"):
+            if c.args:
+                a0 = il.expand(c.args[0], n_)
+                if isinstance(a0, ast.Call) and canon(a0.func) == "dict.fromkeys" and len(a0.args) == 2 and isinstance(a0.args[1], ast.Constant) and a0.args[1].value == 1 \
+                        and canon(a0.args[0]) == init.params[1]:
+                    ok = True
+                    ones = [c]
+                if isinstance(a0, ast.DictComp) and isinstance(a0.value, ast.Constant) and a0.value.value == 1:
+                    ok = True
+                    ones = [c]
     ck.require(ok, "C12.R5", init, ones[0] if ones else "Current(list of ids)", ok="a list of ids means coefficient 1 each", bad="Current(list) does not give each id coefficient 1",
                sink="algebra:init-list")
 
